@@ -192,6 +192,16 @@ def do_op(k, name, a, b, text):
         res(k, simlib.arrSum(prepared(("as", a), lambda: [3 * i for i in range(1, a + 1)])))
     elif name == "char_grow":
         res(k, simlib.charGrow(text))
+    elif name == "char_arr":
+        # items of different kinds: str, bytes, bytearray (the converter treats them differently)
+        def mk3():
+            out_ = []
+            for i in range(1, a + 1):
+                s = "w" * (i % (b + 1))
+                out_.append([s + "", s.encode("ascii") + b"", bytearray(s.encode("ascii"))][(i + b) % 3])
+            return out_
+        lst = prepared(("ca", a, b), mk3)
+        res(k, simlib.charArrLen(lst, len(lst)))
     elif name == "ref_item":
         h[a] = simlib.refItem()
         res(k)
